@@ -37,6 +37,7 @@ package concurrency
 //@ func (*RunnerManager).Add
 //@   tags C12
 //@   requires r != nil
+//@   at every load runners assert [C12.add.reads.locked] heldw(r.lock)
 //@   requires forall j :: 0 <= j && j < len(runner) ==> runner[j] != nil
 //@   ghost started bool
 //@   ghost locked bool
@@ -94,6 +95,9 @@ package concurrency
 //@ func (*RunnerManager).Run
 //@   tags C12
 //@   requires r != nil && ctx != nil
+// every read of r.runners happens under r.lock (the repaired defect re-read len(r.runners) after the unlock while
+// collecting results: an Add in between made Run wait for a result nobody sends)
+//@   at every load runners assert [C12.run.reads.locked] heldw(r.lock)
 //@   requires forall j :: 0 <= j && j < len(r.runners) ==> r.runners[j] != nil
 //@   ghost won bool
 //@   ghost nlock int
